@@ -93,6 +93,13 @@ func checkC18(c *Ctx) {
 	}
 	// every write is counted: the exported Store goes through Write (and its cache_write), like Load through Read (C07 R07.6)
 	c.borrowKinds("C07", func() { c.c07LoadStore() }, "R18.2", "Load/Store:through-Read/Write", []string{"R07.6"}, "store-count", "load-read", "store-args")
+	// "cache_delete: the entries removed by Delete": the metric follows Delete's nil result, and that result has evidence of a
+	// removal (the key was found, by the full key, and taken out) — C07 R07.3
+	c.borrowKinds("C07", func() {
+		for _, b := range backends {
+			c.c07Delete(b)
+		}
+	}, "R18.2", "backends.Delete:nil-means-removed", []string{"R07.3"}, "nil-without-evidence", "removed-but-notfound", "notfound-for-present")
 	// "non-skipped backend reads": a read is skipped exactly when the caller's context carries the SkipRead flag — the accessor finds the
 	// flag by a comma-ok lookup, and WithTTL derives its context from the one it is given (context.WithValue), so an earlier
 	// WithSkipRead survives it (C06 R06.7 / R06.3)
